@@ -7,6 +7,10 @@ SETUP = "cd /verif/checker && . /verif/env.sh && go build -o /verif/bin/nxcheck 
 CLAIMED = {}
 exec(open(os.path.join(os.path.dirname(__file__), "manifest_table.py")).read())
 props = [json.loads(l) for l in open("/verif/properties.jsonl")]
+DESC = json.loads(subprocess.run(["/verif/bin/nxcheck", "describe"], capture_output=True, text=True, check=True).stdout)
+for pid, d in DESC.items():
+    if pid in TECH:
+        CLAIMED[pid] = (TECH[pid], "Static analysis, level 'other'. Decides, as structural necessary conditions on every path of the anchored functions: " + d["decides"] + " Does not decide: " + d["not_decided"], NOTE_COMMON, "DESIGN.md section 4 " + pid)
 checks, na = [], []
 for p in props:
     pid = p["id"]
